@@ -191,11 +191,15 @@ AllZeroAtPixelCentres(r) ==
 \* clauses above judge every call on its own mask, sub sizes and geometry only: what an over-sampling object returns
 \* for a grid must not depend on its history.
 Reused(r) == IF r.hist > 0 THEN "/shared-object-reused" ELSE ""
+\* r.dt = element type of the sub-values handed to the code ("float", "int", "bool"); the mean does not depend on it
+Typed(r) == IF r.dt = "float" THEN "" ELSE "/" \o r.dt \o "-valued"
+SubClass(sub) == IF Uniform(sub) THEN "/uniform-sub" ELSE IF TotalLooksUniform(sub) THEN "/per-pixel-sub-total-looks-uniform"
+                 ELSE "/per-pixel-sub"
 Sig(r) ==
     CASE r.api \in {"iterate", "iterate_fn"} ->
-           IF AllZeroAtPixelCentres(r) THEN "IterateAllZeroAtPixelCentres" ELSE r.api \o "/" \o r.via \o Reused(r)
+           IF AllZeroAtPixelCentres(r) THEN "IterateAllZeroAtPixelCentres" ELSE r.api \o "/" \o r.via \o Typed(r) \o Reused(r)
       [] r.api \in {"partition", "bin", "func"} ->
-           r.api \o "/" \o r.via \o (IF Uniform(r.sub) THEN "/uniform-sub" ELSE "/per-pixel-sub") \o Reused(r)
+           r.api \o "/" \o r.via \o SubClass(r.sub) \o Typed(r) \o Reused(r)
       [] OTHER -> "unknown-api"
 
 Failed(r) == SelectSeq(Clauses(r), LAMBDA c : ~ c.ok)
